@@ -179,10 +179,18 @@ pub fn run_c04(ctx: &Ctx) {
         "a worker was killed, replaced and rejoined, and a worker was saturated afterwards: once every fault is resolved a saturated worker receives nothing (handle positions and worker indices have diverged)");
     run_l2_part(ctx, "l2-skipping", Prop::C04, P_C04_SAT, ctx.tier.scale(120_000, 10), &[("dispatches>W", 0.4), ("saturated", 0.5)],
         ">= 2 workers and more dispatches than workers; with a stable set S of saturated workers the others are served round-robin and S receives nothing");
+    // (c) end-to-end: worker threads seen by the service calls of a real server
+    {
+        use crate::l4;
+        ctx.run_corpus::<l4::Case>("l4", |c| l4::run_case(c, l4::Prop::C04));
+        let rule = format!("{RULE_L4}; here: 2..3 workers, limit 12 (never saturated), 3..10 clients each served before the next connects (hand-over, so call order equals dispatch order): any W consecutive connections are served by W distinct worker threads; non-trivial = the window rule was evaluated");
+        ctx.run_random(Part::new("l4", &rule, ctx.tier.scale(300, 4)).floors(&[("round-robin-window-checked", 0.7)]).shards(8).shrink_iters(8), l4::gen::c04_strategy, |c| l4::run_case(c, l4::Prop::C04));
+    }
 }
 
 pub fn replay_c04(ctx: &Ctx, v: &Value) -> i32 {
     match v["part"].as_str().unwrap_or("") {
+        p if p.starts_with("l4") => replay_l4(ctx, v, crate::l4::Prop::C04),
         p if p.starts_with("availability") => ctx.replay::<AvailCase>(v, check_avail),
         _ => replay_l2(ctx, v, Prop::C04),
     }
